@@ -54,36 +54,37 @@ def csrcs : Nat → Bytes → List UInt32
   | n + 1, a :: b :: c :: d :: rest => rd32 a b c d :: csrcs n rest
   | _, _ => []
 
+/-- the optional extension block in front of `bytes`, and what follows it -/
+def decodeExtPart (hasExt : Bool) (bytes : Bytes) : Option (Option ExtBlock × Bytes) :=
+  if hasExt then
+    match bytes with
+    | p0 :: p1 :: l0 :: l1 :: r =>
+      let n := (rd16 l0 l1).toNat * 4
+      if r.length < n then none
+      else (decodeBlock (rd16 p0 p1) (r.take n)).map fun b => (some b, r.drop n)
+    | _ => none
+  else some (none, bytes)
+
+/-- payload and optional RTP padding: the last byte counts the padding bytes, itself included -/
+def decodePadPart (hasPad : Bool) (r : Bytes) : Option (Option Bytes × Bytes) :=
+  if hasPad then
+    match r.getLast? with
+    | none => none
+    | some cnt =>
+      if cnt.toNat < 1 || r.length < cnt.toNat then none
+      else some (some ((r.drop (r.length - cnt.toNat)).take (cnt.toNat - 1)), r.take (r.length - cnt.toNat))
+  else some (none, r)
+
 /-- a description whose image may be `buf` -/
 def Wire.decode (buf : Bytes) : Option Wire :=
   match buf with
   | b0 :: b1 :: s0 :: s1 :: t0 :: t1 :: t2 :: t3 :: c0 :: c1 :: c2 :: c3 :: rest =>
     let cc := b0.toNat % 16
-    let hasPad := b0.toNat / 32 % 2 == 1
-    let hasExt := b0.toNat / 16 % 2 == 1
     if rest.length < 4 * cc then none else
-    let afterCsrc := rest.drop (4 * cc)
-    let extAndRest : Option (Option ExtBlock × Bytes) :=
-      if hasExt then
-        match afterCsrc with
-        | p0 :: p1 :: l0 :: l1 :: r =>
-          let n := (rd16 l0 l1).toNat * 4
-          if r.length < n then none
-          else (decodeBlock (rd16 p0 p1) (r.take n)).map fun b => (some b, r.drop n)
-        | _ => none
-      else some (none, afterCsrc)
-    match extAndRest with
+    match decodeExtPart (b0.toNat / 16 % 2 == 1) (rest.drop (4 * cc)) with
     | none => none
     | some (ext, r) =>
-      let padAndPayload : Option (Option Bytes × Bytes) :=
-        if hasPad then
-          match r.getLast? with
-          | none => none
-          | some cnt =>
-            if cnt.toNat < 1 || r.length < cnt.toNat then none
-            else some (some ((r.drop (r.length - cnt.toNat)).take (cnt.toNat - 1)), r.take (r.length - cnt.toNat))
-        else some (none, r)
-      match padAndPayload with
+      match decodePadPart (b0.toNat / 32 % 2 == 1) r with
       | none => none
       | some (pad, payload) =>
         some { version := (b0.toNat / 64).toUInt8, marker := b1.toNat / 128 == 1, pt := (b1.toNat % 128).toUInt8,
